@@ -95,7 +95,8 @@ def decide_board(idx, cls, moves, rewards, loose, p_tile, p_robot, p_light, manu
         if has3:
             dm[r2.randrange(L)][r2.randrange(W)] = 3
         mx = max(max(r) for r in rewards)
-        dr = [[r2.randint(0, mx) for _ in range(W)] for _ in range(L)]
+        flat = [x for r in rewards for x in r]
+        dr = [[r2.choice(flat + [0]) for _ in range(W)] for _ in range(L)]
         dr[r2.randrange(L)][r2.randrange(W)] = mx
         dl = [[1 - x for x in row] for row in loose]
         decoy = (dm, dr, dl)
@@ -209,6 +210,11 @@ def run_batch(batch):
             if fd and 3 not in moves[0]:
                 for r in moves:
                     r[0] = 3
+        if idx % 5 == 3:
+            # legal non-negative rewards of unusual size or kind: integers no double represents exactly (odd values above 2^53),
+            # fractional floats, a mix of ints and floats; the light state of the tile must carry exactly that number
+            pool = rng.choice([[2 ** 53 + 1, 10 ** 17 + 3, 10 ** 30, 2 ** 64 - 1, 0, 7], [0.1, 2.5, 1e-9, 3, 0, 1e300], [2 ** 53 + 1, 0.5, 5, 5.0, 10 ** 60, 1]])
+            rewards = [[rng.choice(pool) for _ in range(W)] for _ in range(L)]
         pt, prb, pl = rng.choice(PROBS), rng.choice(PROBS), rng.choice(PROBS)
         if rng.random() < 0.3:
             pt, prb, pl = rng.uniform(0.001, 0.999), rng.uniform(0.001, 0.999), rng.uniform(0.001, 0.999)
